@@ -238,8 +238,7 @@ def local_crash_case(op, step, pre, size_i):
                     buf = src.read(length)
                     if not buf:
                         break
-                    dst.write(buf)
-                    dst.flush()
+                    dst.write(buf)                       # (no flush: shutil.copyfileobj does not flush either)
                     if first:
                         point()                          # after the first stream chunk
                         first = False
